@@ -337,14 +337,28 @@ def _is_integer_value(v):
     return False
 
 
+def declared_bounds(spec, prop):
+    """The domain the proposal was *declared* with: the constructor's boundaries; for the
+    bounded discrete family the documented integer bounds floor(lower), ceil(upper)."""
+    g = GROUP_OF[spec['family']]
+    out = {}
+    for p, b in zip(prop.parameters, spec['bounds']):
+        lo, hi = b
+        if g == 'bd':
+            lo, hi = int(math.floor(lo)), int(math.ceil(hi))
+        out[p] = (lo, hi)
+    return out
+
+
 def start_status(spec, prop, fromx):
     """'inside' | 'outside' | 'band' (bounded eigenvector tolerance band) of the declared domain."""
     g = GROUP_OF[spec['family']]
     if g not in ('bn', 'bd', 'be'):
         return 'inside'
     st = 'inside'
+    bounds = declared_bounds(spec, prop)
     for p in prop.parameters:
-        lo, hi = prop.boundaries[p]
+        lo, hi = bounds[p]
         v = fromx[p]
         if lo <= v <= hi:
             continue
@@ -404,20 +418,20 @@ def judge(spec, prop, fromx, res):
             return out
         return [('%s-no-refusal-outside' % g,
                  '%s asked to jump from %r outside its bounds %r did not refuse (%s: %r)' % (
-                     fam, fromx, getattr(prop, 'boundaries', None), kind, res['out']))]
+                     fam, fromx, declared_bounds(spec, prop), kind, res['out']))]
     if st == 'band':
         if kind != 'ok':
             return out
     if kind == 'refuse':
         return [('%s-refuses-inside' % g, '%s refused to jump from %r inside its bounds %r' % (
-            fam, fromx, prop.boundaries))]
+            fam, fromx, declared_bounds(spec, prop)))]
     if kind == 'error':
         return [('%s-raises' % g, '%s.jump(%r) raised %s' % (fam, fromx, res['exc']))]
     if kind == 'budget':
         if spec.get('stall_is_failure'):
             key = 'bounded-eigenvector-corner-stall' if g == 'be' else '%s-stall' % g
             return [(key, '%s.jump(%r) (bounds %r, scales %r) proposed nothing within %d base draws' % (
-                fam, fromx, dict(prop.boundaries), scale_of(prop), res['script'].budget))]
+                fam, fromx, declared_bounds(spec, prop), scale_of(prop), res['script'].budget))]
         return out
     if kind == 'starved':
         return out
@@ -428,8 +442,9 @@ def judge(spec, prop, fromx, res):
             out.append(('%s-missing-parameter' % g, '%s.jump returned no value for %s' % (fam, p)))
             return out
     if g in ('bn', 'be'):
+        bounds = declared_bounds(spec, prop)
         for p in names:
-            lo, hi = prop.boundaries[p]
+            lo, hi = bounds[p]
             v = pt[p]
             if _isnan(v):
                 out.append(('%s-nan' % g, '%s proposed NaN for %s from %r' % (fam, p, fromx)))
@@ -448,7 +463,7 @@ def judge(spec, prop, fromx, res):
                 out.append(('%s-non-integer' % g, '%s proposed %s=%r (%s), not an integer' % (fam, p, v, type(v).__name__)))
                 continue
             if g == 'bd':
-                lo, hi = prop.boundaries[p]
+                lo, hi = declared_bounds(spec, prop)[p]
                 if not (lo <= v <= hi):
                     out.append(('bd-out-of-bounds', '%s proposed %s=%r outside %r from %r' % (fam, p, v, (lo, hi), fromx)))
             if not prop.successive[p] and int(v) == int(fromx[p]):
@@ -695,7 +710,7 @@ BOXES = [(0.0, 1.0), (-2.0, 3.0), (1e6, 1e6 + 1.0), (-1e-3, 1e-3), (-5.0, -4.5),
 SCALES = [1e-12, 1e-6, 1e-3, 0.1, 1.0, 10.0, 1e3, 1e6, 1e12]
 ADAPT_BOXES = [(0.0, 1.0), (-2.0, 3.0), (-5.0, -4.5)]
 INT_BOXES = [(0, 3), (-3, 2), (-0.5, 4.2), (5, 6), (-7, -7), (0, 1000000)]
-KAPPAS = [1e-12, 1e-8, 1e-3, 0.2464955401, 1.0, 5.0, 17.2372612, 100.0, 500.0, 600.0, 700.0, 705.0]
+KAPPAS = [5.0, 1.0, 100.0, 0.2464955401, 17.2372612, 1e-3, 1e-8, 1e-12, 500.0, 600.0, 700.0, 705.0]
 
 
 def positions_box(lo, hi, rng):
@@ -932,9 +947,9 @@ def gen_sa(rng, tier, full):
                 if th == PI:
                     t = (90.0 if degs else PI / 2) if radec else (180.0 if degs else PI)
                 fromx = {'az': a, 'po': t}
-                u1s = [0.0, 0.5, 0.3] if not full else U_EXTREME + [0.25, 0.5, 0.75, 0.3]
+                u1s = [0.3, 0.0, 0.5] if not full else [0.3, 0.25, 0.5, 0.75] + U_EXTREME
                 for u1 in u1s:
-                    for u2 in U_EXTREME + (U_GRID if (full or ti >= 4) else U_GRID[::3]):
+                    for u2 in [0.6] + U_EXTREME + (U_GRID if (full or ti >= 4) else U_GRID[::3]):
                         yield case(spec, fromx, u=[u1, u2], tail=None)
             # a draw that lands (numerically) on the pole of the rotated frame: phi1 = pi, theta1 = beta
             for th in (0.3, 1.0, 2.0, 3.0) if kappa in (1.0, 5.0, 100.0) else ():
@@ -1088,7 +1103,7 @@ def run_case(c):
 
 
 def describe(c):
-    d = dict(c)
+    d = {k: v for k, v in c.items() if not k.startswith('_')}
     d['fromx'] = {k: (v if isinstance(v, int) else float(v)) for k, v in c['fromx'].items()}
     return d
 
@@ -1121,7 +1136,9 @@ def run_suite(cases, do_model=True, stats=None, model_every=1):
             st['rejections'] += max(0, res['script'].used('z') - len(prop.parameters))
         if used > 0 or res['kind'] == 'refuse':
             distinct.add(json.dumps(describe(c), sort_keys=True, default=str))
-        for key, text in judge(c['spec'], prop, c['fromx'], res):
+        flagged = judge(c['spec'], prop, c['fromx'], res)
+        c['_flagged'] = [k for k, _ in flagged]
+        for key, text in flagged:
             if key not in findings:
                 findings[key] = (key, text, {'suite': 'search', 'case': describe(c),
                                              'observed': repr(res['out']) if res['kind'] == 'ok' else res['kind'],
@@ -1150,7 +1167,7 @@ def run_suite(cases, do_model=True, stats=None, model_every=1):
             stats.setdefault('_model_answers', {}).setdefault(mk, 0)
             stats['_model_answers'][mk] += 1
             if not ok:
-                divs.append({'case': describe(c), 'request': req[:2000], 'model': ans[:500],
+                divs.append({'case': describe(c), 'flagged': c.get('_flagged', []), 'request': req[:2000], 'model': ans[:500],
                              'real': {k: (repr(v)) for k, v in real.items()}, 'why': why})
         stats['_compared'] = stats.get('_compared', 0) + ncmp
     stats['_distinct'] = stats.get('_distinct', 0) + len(distinct)
